@@ -413,7 +413,30 @@ func TestMeshNearSurface(t *testing.T) {
 			if area > 1e-6*h*h {
 				n := tr.Normal()
 				gv := grad(a.f, cen, 1e-4*h)
-				if gl := gv.Length(); gl > 0.5 {
+				// only where the field is smooth across the whole triangle: the gradients at the
+				// three vertices and the centroid agree (near a sharp edge or rim the gradient jumps
+				// between faces and "agrees with the gradient" has no meaning for a straddling triangle)
+				smooth := true
+				for _, q := range tr {
+					gq := grad(a.f, q, 1e-4*h)
+					if gq.Length() < 0.5 || gv.Length() < 0.5 || gq.Normalize().Dot(gv.Normalize()) < 0.9 {
+						smooth = false
+					}
+				}
+				// and only where the lattice can resolve the surface (the statement's own notion): a ball of
+				// one cell diagonal fits against the surface point nearest to the centroid, inside and outside
+				if smooth {
+					gn := gv.Normalize()
+					foot := cen.Sub(gn.MulScalar(of(cen)))
+					in, out := of(foot.Sub(gn.MulScalar(diag))), of(foot.Add(gn.MulScalar(diag)))
+					if math.Abs(in+diag) > 1e-3*diag || math.Abs(out-diag) > 1e-3*diag {
+						smooth = false
+					}
+				}
+				if !smooth {
+					rec.Add("normals-skipped-unresolvable-or-sharp", 1)
+				}
+				if gl := gv.Length(); smooth && gl > 0.5 {
 					checkedNormals++
 					dot := n.Dot(gv.DivScalar(gl))
 					// triangles straddling a sharp edge of a box/cylinder/cone legitimately average two faces: require outward (> 0)
@@ -488,4 +511,5 @@ func TestVolumeConvergence(t *testing.T) {
 	})
 }
 
-const volC = 1.0 // placeholder, calibrated below
+// volC: observed relative volume error of a sphere ~0.59*(h/R)^2 on the pinned tree (both renderers); bound with 2.2x margin
+const volC = 1.3
